@@ -19,7 +19,7 @@ FUNCS = ("pvl.collections.OrderedMultiDict.__init__", "…__setitem__", "…__ge
          "pvl.collections.KeysView/ValuesView/ItemsView", "pvl.collections._insert_arg_helper")
 
 CLASSES = ("OrderedMultiDict", "PVLModule", "PVLGroup", "PVLObject")
-OPS = ("append", "extend_pairs", "extend_mapping", "extend_kwargs", "insert3", "insert_pair", "insert_pairs",
+OPS = ("append", "extend_pairs", "extend_mapping", "extend_kwargs", "extend_multidict", "insert3", "insert_pair", "insert_pairs",
        "insert_before", "insert_after", "setitem", "delitem", "pop", "pop_key", "pop_key_default", "popall",
        "popitem", "setdefault", "update_pairs", "update_mapping", "discard", "clear", "copy_method")
 
@@ -67,8 +67,9 @@ class Step(Harness):
             a = {"key": key("ak"), "value": val("av")}
         if op in ("insert3", "insert_pair", "insert_pairs"):
             a["index"] = idx("ai")
-        if op in ("extend_pairs", "extend_mapping", "extend_kwargs", "insert_pairs", "update_pairs", "update_mapping"):
-            m = pick(ctx, "am", 0, 2)
+        if op in ("extend_pairs", "extend_mapping", "extend_kwargs", "insert_pairs", "update_pairs", "update_mapping",
+                  "extend_multidict", "update_multidict"):
+            m = pick(ctx, "am", 0, 3 if op.endswith("multidict") else 2)
             a["pairs"] = [(key("ak%d" % j), val("av%d" % j)) for j in range(m)]
         if op in ("insert_before", "insert_after"):
             a = {"key": key("ak"), "instance": pick(ctx, "ainst", -n - 1, n + 1),
@@ -88,6 +89,15 @@ class Step(Harness):
         none = ("ret", None)
         if op == "append":
             return m + [(a["key"], a["value"])], none
+        if op == "extend_multidict":
+            return m + list(a["pairs"]), none            # another multi-dict: every pair, repeated keys included
+        if op == "update_multidict":
+            # update() assigns pair by pair (documented as dict-like): each assignment replaces the first
+            # occurrence and drops later ones
+            for k, v in a["pairs"]:
+                sub = Step(cls=self.cls, n=0, op="setitem")
+                m, _ = sub.model_op(m, {"key": k, "value": v})
+            return m, none
         if op in ("extend_pairs", "extend_mapping", "extend_kwargs"):
             if op != "extend_pairs":
                 # a mapping / keyword arguments cannot repeat a key: the last value wins, first position kept
@@ -168,6 +178,10 @@ class Step(Harness):
         op = self.op
         if op == "append":
             return c.append(a["key"], a["value"])
+        if op == "extend_multidict":
+            return c.extend(L.collections.PVLGroup(list(a["pairs"])))
+        if op == "update_multidict":
+            return c.update(L.collections.OrderedMultiDict(list(a["pairs"])))
         if op == "extend_pairs":
             return c.extend(list(a["pairs"]))
         if op == "extend_mapping":
